@@ -56,3 +56,9 @@ Definition check_run (v : variant) (plans : list (list behav)) (ops : list op) (
 (* model-side branch summary, for the coverage histogram *)
 Definition outcomes (v : variant) (plans : list (list behav)) (ops : list op) : list ocls :=
   map cls (fst (run_gen v (init (map plan_of plans)) ops)).
+
+(* staggered answers: X_async, then X_wait(T) with per-worker answer times ds; compare outcome class and state *)
+Definition check_staggered (plans : list (list behav)) (k : kind) (T : nat) (ds : list nat) (c : ocls) (s : pst) : bool :=
+  let e1 := snd (async k (init (map plan_of plans))) in
+  let '(o, e2) := wait_timed false k T ds e1 in
+  ocls_eqb (cls o) c && pst_eqb (st e2) s.
